@@ -401,7 +401,8 @@ Proof.
     destruct (parse_date s) as [d|] eqn:P; [|discriminate]. inversion H; subst j'.
     destruct (print_parse_date _ _ P) as [Q _]. rewrite Q. cbn [reenc_leaf]. rewrite P, Q. reflexivity.
   - (* LDateTime *) destruct j; try discriminate. cbn [reenc_leaf] in H.
-    destruct (canonical_datetime s) eqn:C; [|discriminate]. inversion H; subst. cbn [reenc_leaf]. now rewrite C.
+    destruct (parse_datetime s) as [c|] eqn:P; [|discriminate]. inversion H; subst. cbn [reenc_leaf].
+    destruct (parse_datetime_canonical _ _ P) as [_ ->]. reflexivity.
   - (* LUUID *) destruct j; try discriminate.
     + inversion H. reflexivity.
     + cbn [reenc_leaf] in H.
